@@ -440,6 +440,7 @@ def run_case(case, oracle=None):
                 continue
             target = None
             restored = None
+            oob_undo = None
             try:
                 if k == 'C':
                     kw = pkw(op[1])
@@ -522,8 +523,14 @@ def run_case(case, oracle=None):
                         if k == 'RR' and ver is not None:
                             # another process / raw SQL changes a column of the master row; the instance the restoring
                             # side holds still has the old values cached.  restore() must make the ROW equal the version.
+                            prev = conns[d].queryAll('SELECT %s FROM %s WHERE id = %s' % (
+                                colname(op[2]), cls.sqlmeta.table, conns[d].sqlrepr(ver.masterID)))
                             conns[d].query('UPDATE %s SET %s = %d WHERE id = %s' % (
                                 cls.sqlmeta.table, colname(op[2]), op[3], conns[d].sqlrepr(ver.masterID)))
+                            if prev:
+                                oob_undo = 'UPDATE %s SET %s = %s WHERE id = %s' % (
+                                    cls.sqlmeta.table, colname(op[2]), conns[d].sqlrepr(prev[0][0]),
+                                    conns[d].sqlrepr(ver.masterID))
                     except Exception as ex:
                         if exc_out(ex) != 'NotFound':
                             raise
@@ -548,6 +555,11 @@ def run_case(case, oracle=None):
                             out = 'nohandle'      # the master could not be fetched
             except Exception as ex:
                 out = exc_out(ex)
+            if oob_undo is not None and out != 'ok':
+                # the restore that was to overwrite the harness's own out-of-band write did not complete (refused by the
+                # UNIQUE constraint or a validator): the write is the harness's, not sqlobject's, and the model line encodes
+                # RR as a plain restore, so the harness takes its write back; what remains is a plain failed restore
+                conns[d].query(oob_undo)
             states = [tables(cls, conns[dd], back[dd]) for dd in range(ndb)]
             results.append((out, states))
             if oracle is None:
